@@ -171,3 +171,41 @@ def place_endswith(pl, *elems):
     p = pl.get('p', [])
     n = len(elems)
     return len(p) >= n and list(p[-n:]) == list(elems)
+
+
+def slice_strs(fb, body, sl):
+    """string constants contributing to a slice, including format_args! templates (byte arrays) and promoted constants"""
+    import re
+    out = []
+    for kind, v, _, _ in slice_consts(sl):
+        if kind == 'str':
+            out.append(v)
+        elif kind == 'bytes':
+            out += [m for m in re.findall(r'[ -~]{2,}', v)]
+    for _, _, node in sl:
+        ops = []
+        if 'rv' in node:
+            ops, _ = rv_operands(node['rv'])
+        elif node.get('k') == 'call':
+            ops = node['args']
+        for o in ops:
+            if 'promoted' in o:
+                out += promoted_strs(fb, body, o['promoted'])
+            elif 'uneval' in o and 'promoted' not in o:
+                out.append('const:' + o['uneval'])
+    return out
+
+
+def promoted_strs(fb, body, idx):
+    out = []
+    owner = body.id
+    pid = '%s::{promoted#%d}' % (owner, idx)
+    for b in fb.bodies(body.crate, 'Rlib' if (body.crate, 'Rlib') in fb.available() else 'ProcMacro'):
+        if b.id == pid:
+            for bb, j, st in b.all_assigns():
+                for oo in rv_operands(st['rv'])[0]:
+                    if 'str' in oo:
+                        out.append(oo['str'])
+                    elif 'uneval' in oo:
+                        out.append('const:' + oo['uneval'])
+    return out
